@@ -164,6 +164,32 @@ fn gen(rng: &mut Rng, tier: Tier) -> Vec<Case> {
         let (bulk, ins) = split_history(rng, recs);
         out.push(Case::new("random", enc(&C { bulk, ins, qs })));
     }
+    if tier == Tier::Thorough {
+        // BLOCKS: a few hundred records on one chromosome, long records sitting (in start order) just before a multiple of a
+        // power-of-two block size 2^4..2^8, then ONE or two inserts in front of them (every later record moves one place up,
+        // across the block boundary), queries deep inside the long records — a per-block summary maintained on insert shows here
+        for rep in 0..12u64 {
+            let n = *rng.pick(&[100usize, 200, 300, 600]);
+            let mut seams: Vec<u64> = vec![];
+            for b in [16u64, 32, 64, 128, 256] { for k in 1..4u64 { if k * b + 5 < n as u64 { seams.push(k * b - 1 - (rep % 2)); } } }
+            seams.sort(); seams.dedup();
+            let mut recs: Vec<(Rec, u64)> = vec![];
+            let mut qs: Vec<Rec> = vec![];
+            let mut short = 0u64;
+            for i in 0..n as u64 {
+                if seams.binary_search(&i).is_ok() {
+                    let s = 100 + 10 * short - 2;
+                    let e = s + 10 * rng.range(8, 30);
+                    recs.push((Rec::new("chr1", s, e), i));
+                    qs.push(Rec::new("chr1", e - 7, e - 3));
+                    qs.push(Rec::new("chr1", s + 40, s + 41));
+                } else { recs.push((Rec::new("chr1", 100 + 10 * short, 100 + 10 * short + 3), i)); short += 1; }
+            }
+            let ins: Vec<(Rec, u64)> = (0..1 + rep % 2).map(|j| (Rec::new("chr1", 5 + j, 9 + j), 100_000 + j)).collect();
+            qs.truncate(60);
+            out.push(Case::new("blocks", enc(&C { bulk: recs, ins, qs })));
+        }
+    }
     add_flavours(rng, &mut out);
     out
 }
